@@ -22,6 +22,7 @@ run_one() { # patch reverse(0/1) property expect name
   n=$((n+1))
   if [ "$expect" = violation ] && [ $rc -eq 1 ]; then echo "ok   $name ($prop): violation reported: $(echo "$out" | grep -m1 VIOLATION | sed 's/.*replay=//' | xargs basename 2>/dev/null)"
   elif [ "$expect" = pass ] && [ $rc -eq 0 ]; then echo "ok   $name ($prop): still proved"
+  elif [ "$expect" = pass-or-undecided ] && { [ $rc -eq 0 ] || [ $rc -eq 2 ]; } && ! echo "$out" | grep -q '^VIOLATION'; then echo "ok   $name ($prop): no alarm (exit $rc)"
   elif [ "$expect" = undecided ] && [ $rc -eq 2 ]; then echo "ok   $name ($prop): refused as undecided: $(echo "$out" | grep -m1 UNDECIDED | cut -c1-120)"
   else echo "FAIL $name ($prop): expected $expect, exit $rc"; echo "$out" | tail -3; fail=1; fi
 }
@@ -47,8 +48,10 @@ done
 for j in selftest/harmless/*.json; do
   [ -f "$j" ] || continue
   p=${j%.json}.patch
+  exp=pass
+  [ "$(python3 -c "import json;print(1 if json.load(open('$j')).get('allow_undecided') else 0)")" = 1 ] && exp=pass-or-undecided
   for prop in $(python3 -c "import json;print(' '.join(json.load(open('$j'))['properties']))"); do
-    run_one "$p" 0 "$prop" pass "harmless/$(basename $p .patch)"
+    run_one "$p" 0 "$prop" $exp "harmless/$(basename $p .patch)"
   done
 done
 echo "selftest: $n runs, $( [ $fail = 0 ] && echo all as expected || echo FAILURES )"
